@@ -14,8 +14,8 @@ import (
 type CaseC04 struct {
 	Doc     *XElem `json:"doc"`
 	GoEmpty bool   `json:"go_empty,omitempty"` // XmlGoEmptyElemSyntax for the encoders
-	Prefix string `json:"prefix"`
-	Ind    string `json:"ind"`
+	Prefix  string `json:"prefix"`
+	Ind     string `json:"ind"`
 }
 
 func init() { register("C04", checkC04) }
